@@ -409,11 +409,64 @@ Proof.
     reflexivity.
 Qed.
 
+(* ---------------------------------------------------------------- the invariant as a boolean
+   (decidable; proved equivalent to [wf] with the induction principle for the nested type) *)
+Fixpoint mem_level (k : level) (l : list level) : bool :=
+  match l with [] => false | x :: l' => level_eqb k x || mem_level k l' end.
+
+Fixpoint nodupb (l : list level) : bool :=
+  match l with [] => true | x :: l' => negb (mem_level x l') && nodupb l' end.
+
+Fixpoint wfb (n : node) : bool :=
+  match n with
+  | Node c ch =>
+      nodupb (map fst ch)
+      && (fix go (l : list (level * node)) : bool :=
+            match l with
+            | [] => true
+            | kc :: l' => (wfb (snd kc) && negb (prunable (snd kc))) && go l'
+            end) ch
+  end.
+
+Lemma wfb_eq c ch :
+  wfb (Node c ch) = nodupb (map fst ch) && forallb (fun kc => wfb (snd kc) && negb (prunable (snd kc))) ch.
+Proof. reflexivity. Qed.
+
+Lemma mem_level_spec k l : mem_level k l = true <-> In k l.
+Proof.
+  induction l as [|x l IH]; simpl; [split; [discriminate | intros []]|].
+  rewrite orb_true_iff, IH, level_eqb_eq. split; intros [H|H]; auto.
+Qed.
+
+Lemma nodupb_spec l : nodupb l = true <-> NoDup l.
+Proof.
+  induction l as [|x l IH]; simpl; [split; [constructor | reflexivity]|].
+  rewrite andb_true_iff, negb_true_iff, IH. split.
+  - intros [H1 H2]. constructor; [|exact H2]. intro Hin. apply mem_level_spec in Hin. congruence.
+  - intro H. inversion H; subst. split; [|assumption].
+    destruct (mem_level x l) eqn:E; [|reflexivity]. apply mem_level_spec in E. contradiction.
+Qed.
+
+Lemma wfb_spec n : wfb n = true <-> wf n.
+Proof.
+  induction n as [c ch IH] using node_ind'. rewrite wfb_eq, andb_true_iff, nodupb_spec, forallb_forall.
+  rewrite Forall_forall in IH. split.
+  - intros [ND H]. constructor; [exact ND | |]; intros k n Hin; specialize (H _ Hin); simpl in H;
+      apply andb_true_iff in H as [H1 H2].
+    + apply (IH _ Hin). exact H1.
+    + apply negb_true_iff in H2. exact H2.
+  - intro W. inversion W as [c' ch' ND W1 W2]; subst. split; [exact ND|].
+    intros [k n] Hin. simpl. apply andb_true_iff. split.
+    + apply (IH _ Hin). simpl. eapply W1; exact Hin.
+    + apply negb_true_iff. eapply W2; exact Hin.
+Qed.
+
 End Refine.
 
 Arguments abs {V} n.
 Arguments abs_children {V} ch.
 Arguments wf {V} n.
+Arguments wfb {V} n.
 Arguments del_rec {V} ks n.
 Arguments pk {V} k fv.
 Arguments opt_entry {V} c.
